@@ -56,6 +56,7 @@ func matchLen(b []byte, lit string, k int) int {
 //@ ensures eof-bytes: err == io.ErrUnexpectedEOF ==> len(b) < len(lit) && vForall(0, len(b), func(k int) bool { return b[k] == lit[k] })
 //@ ensures bad-bytes: err != nil && err != io.ErrUnexpectedEOF ==> vForall(0, n, func(k int) bool { return b[k] == lit[k] }) && b[n] != lit[n]
 //@ ensures range: 0 <= n && n <= len(b) && n <= len(lit)
+//@ ensures err-type: err == nil || err == io.ErrUnexpectedEOF || isInvalidTextErr(err)
 //@ loop 0 invariant 0 <= i && i <= len(b) && i <= len(lit)
 //@ loop 0 invariant vForall(0, i, func(k int) bool { return b[k] == lit[k] })
 //@ loop 0 invariant matchLen(b, lit, i) == matchLen(b, lit, 0)
@@ -445,6 +446,7 @@ func numTS(b []byte, resumeOffset int, state ConsumeNumberState) int {
 //@ ensures eof-esign: isUnexpectedEOF(err) && numTS(b, resumeOffset, state) == nESign ==> n == len(b)-2 && result1 == beforeExponentDigits && (b[n] == 'e' || b[n] == 'E')
 //@ ensures bad-n: err != nil && !isUnexpectedEOF(err) ==> n == numTP(b, resumeOffset, state) && n < len(b)
 //@ ensures range: 0 <= n && n <= len(b)
+//@ ensures err-type: err == nil || isUnexpectedEOF(err) || isInvalidTextErr(err)
 //@ ensures resume-state: isUnexpectedEOF(err) || (err == nil && n == len(b)) ==> result1 <= withinExponentDigits
 //@ ensures resume-init: (isUnexpectedEOF(err) || (err == nil && n == len(b))) && (result1 == consumeNumberInit || result1 == beforeIntegerDigits) ==> n == 0
 //@ ensures resume-exp: (isUnexpectedEOF(err) || (err == nil && n == len(b))) && result1 == beforeExponentDigits ==> n < len(b)
